@@ -207,6 +207,15 @@ func (u Universe) cells(cubes ...[]Cube) ([]cell, error) {
 		for k, v := range cur.atoms {
 			c.atoms[k] = v
 		}
+		// a nil slice (or string-like value) has length 0: a cell that has it
+		// nil with a positive length cannot occur
+		for a, b := range c.atoms {
+			if b && strings.HasPrefix(a, "nil(") && strings.HasSuffix(a, ")") {
+				if p, ok := c.terms["len("+a[4:]]; ok && p.lo > 0 {
+					return
+				}
+			}
+		}
 		if u.Feasible == nil || u.Feasible(c) {
 			out = append(out, c)
 		}
